@@ -179,7 +179,6 @@ Proof.
     + constructor; [split; [reflexivity | exact Hx] | exact IH].
 Qed.
 
-Definition rec_ok (r : ident * N) : Prop := snd r < U32.
 
 Lemma stored_ttl_bounds t : t < U32 -> 1 <= stored_ttl true t /\ stored_ttl true t < U32.
 Proof. intros H. rewrite stored_ttl_response. unfold U32 in *. lia. Qed.
@@ -204,7 +203,6 @@ Qed.
 
 (* ---- queries ---- *)
 
-Definition qd_eq (q1 q2 : qdesc) : Prop := qd_questions q1 = qd_questions q2.
 
 Lemma ka_of_total c1 c2 name qtype now :
   Rc c1 c2 -> (exists l, ka_of T1 O1 c1 name qtype now = Ok l) /\ (exists l, ka_of T2 O2 c2 name qtype now = Ok l).
@@ -426,9 +424,6 @@ Qed.
 
 (* ---- one iteration, whole histories ---- *)
 
-Definition io_eq (o1 o2 : iterobs) : Prop :=
-  Forall2 qd_eq (io_queries o1) (io_queries o2) /\
-  io_removed_services o1 = io_removed_services o2 /\ io_removed_addrs o1 = io_removed_addrs o2.
 
 Lemma sim_iter_rel cfg c1 c2 now nsb nsh recs :
   Rc c1 c2 -> now < B63 -> Forall rec_ok recs ->
@@ -481,7 +476,6 @@ Proof.
   repeat apply Forall2_app_qd; assumption.
 Qed.
 
-Definition step_ok (s : simstep) : Prop := ss_now s < B63 /\ Forall rec_ok (ss_recs s).
 
 Lemma sim_run_rel cfg : forall steps c1 c2,
   Rc c1 c2 -> Forall step_ok steps ->
